@@ -76,33 +76,64 @@ static struct {
 	char stats_path[256];
 } M;
 
-/* shadow of every message sitting between msg_queue_insert and msg_queue_extract */
-#define PEND_CAP 8192
-static struct {
+/* shadow of every message sitting between msg_queue_insert and msg_queue_extract: open-addressing set keyed by address */
+#define PEND_CAP (1u << 17)
+static struct pend_ent {
 	struct lp_msg *m;
 	double ts;
 } pend[PEND_CAP];
 static unsigned pend_n;
 
+static inline unsigned pend_slot(const struct lp_msg *m) { return (unsigned)(((uintptr_t)m >> 4) * 2654435761u) & (PEND_CAP - 1); }
+
+static struct pend_ent *pend_find(const struct lp_msg *m)
+{
+	for(unsigned i = pend_slot(m);; i = (i + 1) & (PEND_CAP - 1)) {
+		if(pend[i].m == m)
+			return &pend[i];
+		if(!pend[i].m)
+			return NULL;
+	}
+}
+
 static void pend_add(struct lp_msg *m)
 {
-	for(unsigned i = 0; i < pend_n; i++)
-		if(pend[i].m == m)
-			sim_violation("C06", "double-insert", "message %p (t=%g) inserted while already queued", (void *)m, m->dest_t);
-	if(pend_n < PEND_CAP) {
-		pend[pend_n].m = m;
-		pend[pend_n++].ts = m->dest_t;
+	if(pend_find(m))
+		sim_violation("C06", "double-insert", "message %p (t=%g) inserted while already queued", (void *)m, m->dest_t);
+	if(pend_n >= PEND_CAP / 2) {
+		fprintf(stderr, "HARNESS: pending-message mirror full\n");
+		abort();
+	}
+	unsigned i = pend_slot(m);
+	while(pend[i].m)
+		i = (i + 1) & (PEND_CAP - 1);
+	pend[i].m = m;
+	pend[i].ts = m->dest_t;
+	pend_n++;
+}
+
+static void pend_remove(struct pend_ent *e)
+{
+	unsigned i = (unsigned)(e - pend);
+	pend[i].m = NULL;
+	pend_n--;
+	/* backward-shift deletion keeps probe sequences intact */
+	for(unsigned j = (i + 1) & (PEND_CAP - 1); pend[j].m; j = (j + 1) & (PEND_CAP - 1)) {
+		unsigned k = pend_slot(pend[j].m);
+		if((i <= j) ? (k <= i || k > j) : (k <= i && k > j)) {
+			pend[i] = pend[j];
+			pend[j].m = NULL;
+			i = j;
+		}
 	}
 }
 
 static void pend_del(struct lp_msg *m)
 {
-	for(unsigned i = 0; i < pend_n; i++)
-		if(pend[i].m == m) {
-			pend[i] = pend[--pend_n];
-			return;
-		}
-	sim_violation("C15", "extract-unknown", "extracted message %p was never inserted", (void *)m);
+	struct pend_ent *e = pend_find(m);
+	if(!e)
+		sim_violation("C15", "extract-unknown", "extracted message %p was never inserted", (void *)m);
+	pend_remove(e);
 }
 
 extern double fakempi_min_in_flight(void) __attribute__((weak));
@@ -313,10 +344,14 @@ simtime_t verif_wrap_msg_queue_time_peek(void) { return RKC->msg_queue_time_peek
 
 static void check_pending_above(double g, const char *when)
 {
-	for(unsigned i = 0; i < pend_n; i++)
+	for(unsigned i = 0, seen = 0; i < PEND_CAP && seen < pend_n; i++) {
+		if(!pend[i].m)
+			continue;
+		seen++;
 		if(pend[i].ts < g)
 			sim_violation("C04", "pending-below-gvt", "%s GVT=%g while a message with t=%g is still queued (dest LP %llu)",
 			    when, g, pend[i].ts, (unsigned long long)pend[i].m->dest);
+	}
 	if(fakempi_min_in_flight) {
 		double f = fakempi_min_in_flight();
 		if(f < g)
@@ -364,9 +399,9 @@ void engine_on_sp(struct vthread *t, int kind, const volatile void *addr)
 	double g = c->term_gvt;
 	c->votes++;
 	probe_hit("votes");
-	if(g >= term_time())
-		if(P.term_time_q > 0)
-			return;
+	/* "the GVT has reached the configured termination time"; none configured = SIMTIME_MAX, reached when no event is left anywhere */
+	if(g >= (P.term_time_q > 0 ? term_time() : SIMTIME_MAX))
+		return;
 	for(lp_id_t i = c->first; i < c->end; i++) {
 		struct ref_lp *R = &REF[i];
 		if(R->first_true == -2)
@@ -724,17 +759,17 @@ void verif_hook_msg_free(struct lp_msg *msg)
 		e->live = false;
 	}
 	if(!P.serial) {
-		for(unsigned i = 0; i < pend_n; i++)
-			if(pend[i].m == msg) {
-				/* shutdown discards what is still queued for the finalising thread: by design */
-				if(in_queue_fini && msg->dest < (lp_id_t)P.n_lps && LM[msg->dest].owner_vt == vt_self->id) {
-					pend[i] = pend[--pend_n];
-					probe_hit("queued_at_shutdown");
-					break;
-				}
+		struct pend_ent *pe = pend_find(msg);
+		if(pe) {
+			/* shutdown discards what is still queued for the finalising thread: by design */
+			if(in_queue_fini && msg->dest < (lp_id_t)P.n_lps && LM[msg->dest].owner_vt == vt_self->id) {
+				pend_remove(pe);
+				probe_hit("queued_at_shutdown");
+			} else {
 				sim_violation("C06", "released-while-queued", "message %p (t=%g, LP %llu) released while it sits in a thread's queue",
 				    (void *)msg, msg->dest_t, (unsigned long long)msg->dest);
 			}
+		}
 		if(fakempi_buffer_in_flight && fakempi_buffer_in_flight(msg, (char *)msg + sizeof(struct lp_msg)))
 			sim_violation("C06", "released-in-flight", "message %p (t=%g) released while MPI may still read its buffer", (void *)msg,
 			    msg->dest_t);
@@ -855,6 +890,7 @@ void tw_run(void)
 	memset(TC, 0, sizeof(TC));
 	memset(LM, 0, sizeof(LM));
 	pend_n = 0;
+	memset(pend, 0, sizeof(pend));
 	for(int i = 0; i < MODEL_MAX_LPS; i++)
 		LM[i].owner_vt = -1;
 	snprintf(M.stats_path, sizeof(M.stats_path), "/verif/.work/stats_%d", (int)getpid());
@@ -1066,7 +1102,7 @@ static void final_checks(void)
 	}
 	/* C07: the run returned although nobody asked it to stop */
 	if(!M.stop_called) {
-		bool time_reached = P.term_time_q > 0 && M.final_gvt >= term_time();
+		bool time_reached = M.final_gvt >= (P.term_time_q > 0 ? term_time() : SIMTIME_MAX);
 		if(!time_reached)
 			for(lp_id_t i = 0; i < n; i++) {
 				struct ref_lp *R = &REF[i];
@@ -1078,8 +1114,12 @@ static void final_checks(void)
 					    M.final_gvt, (unsigned long long)i, R->first_true_ts);
 			}
 	}
-	/* C01 / C02: the state at finalisation is the sequential one */
-	if(by_predicate && P.m_absorbing) {
+	/* C01 / C02: the state at finalisation is the sequential one (whenever every LP's predicate eventually holds in the
+	 * sequential execution: the run then ended by predicate, or because no event was left, which is the same state) */
+	bool all_true = true;
+	for(lp_id_t i = 0; i < n; i++)
+		all_true &= REF[i].first_true != -2;
+	if(by_predicate && P.m_absorbing && all_true) {
 		for(lp_id_t i = 0; i < n; i++) {
 			if(!LM[i].fini_pred)
 				sim_violation("C07", "final-state-predicate", "LP %llu is finalised in a state that does not satisfy its predicate",
